@@ -25,7 +25,7 @@ CHECKS = {
          '(cycle_check), that every validated mutation preserves acyclicity of the directed part for all histories (acyclic_step, acyclic_run), '
          'that a directed add is refused with CyclicConnectionError exactly when it closes a cycle (add_edge_cyclic_iff), and that is_dag is true '
          'exactly for all-directed acyclic graphs with no acyclicity premise (is_dag_spec). Tied to the code by step-by-step correspondence on '
-         'cycle-seeking histories and by running every constructor on every binary matrix up to a bound.',
+         'cycle-seeking histories and by running every constructor on every binary matrix up to a bound. The constructors are covered by theorems too (CtorAcyclicProofs.v, CtorAcyclicLag.v): from_dict on ANY JSON input, from_adjacency_matrix (deferred validation), from_networkx, from_skeleton, Skeleton constructors and from_adjacency_matrices yield an acyclic graph or CyclicConnectionError, the validated call succeeds exactly when the unvalidated result is acyclic, and is_dag is exact on every constructed graph; the source fact \'validate defaults to True in all 15 functions that take it\' is regenerated and re-proved on every run.',
     note=TB + 'networkx.is_directed_acyclic_graph is modelled by its specification (acyclicb); GML parsing is exercised, not modelled.',
     technique='Coq proof of loop correctness + acyclicity invariant; correspondence', design='§7 C02'),
  'C04': dict(
@@ -41,23 +41,23 @@ CHECKS = {
     text='Machine-checked proofs that the executable query models equal their graph-theoretic definitions on all graphs: descendants/ancestors = '
          'transitive closure, all_paths = exactly the simple directed paths, the memoised nodes_between recursion = {v | a ~>* v ~>* b} on DAGs, '
          'directed_path_exists (fuelled, as written) = reachability on acyclic directed parts, all_topo = exactly the linear extensions, renaming '
-         'invariance. Tied to the code by comparing every query on every labelled DAG up to 4 (quick) / 5 (thorough) nodes and sampled larger ones.',
-    note=TB + 'networkx routines (ancestors, descendants, all_simple_paths, topological sorts) are modelled by specification; the sub-graph builders are modelled as written and compared, their induced-subgraph property is validated not proved.',
+         'invariance. Tied to the code by comparing every query on every labelled DAG up to 4 (quick) / 5 (thorough) nodes and sampled larger ones. The sub-graph builders are proved to return induced sub-graphs / stars, and every query is proved to depend only on the arc set (construction-order invariance).',
+    note=TB + 'networkx routines (ancestors, descendants, all_simple_paths, topological sorts) are modelled by specification; the sub-graph builders (_get_subgraph, ancestral / descendant / parents / children graphs) are modelled as written on the concrete graph state and PROVED to be the induced sub-graphs / stars on the right node sets, independent of the set iteration order and of the construction order (SubGraphProofs.v).',
     technique='Coq proofs of query = definition; exhaustive small-scope correspondence', design='§7 C10'),
  'C11': dict(
     text='Machine-checked proof that the executable dsepb decides the path-based definition of d-separation for all graphs (dsepb_correct), '
          'symmetry, and the exact minimal-separator checker (min_sepb_spec). The library delegates to networkx; agreement of is_d_separated / '
          'is_minimally_d_separated with dsepb / min_sepb is checked for EVERY DAG up to 4 (quick) / 5 (thorough) nodes, every pair and every '
-         'conditioning subset, and every get_d_separation_set answer is checked by the Coq predicate.',
-    note=TB + 'Nothing is proved ABOUT networkx: its routines are modelled by the textbook definition and validated exhaustively to the stated size (the general minimality of its separator is proved only for all DAGs on <= 4 nodes).',
-    technique='Coq proof of decision procedure = definition; exhaustive translation validation of the delegating code', design='§7 C11'),
+         'conditioning subset, and every get_d_separation_set answer is checked by the Coq predicate. networkx\'s two minimal-separator algorithms are modelled algorithmically and proved correct on every DAG (Lauritzen\'s theorem).',
+    note=TB + 'Nothing is proved ABOUT networkx: its routines are modelled by the textbook definition and validated exhaustively to the stated size ; the minimal_d_separator of networkx 3.2.1 and is_minimal_d_separator are additionally modelled ALGORITHMICALLY (moralised ancestral graph + BFS with marks) and proved correct on EVERY DAG via the moralisation theorem of Lauritzen et al. (MoralProofs.v: moral_separation_iff_dsep, min_dsep_set_min_sep, nx_min_sepb_eq).',
+    technique='Coq proof of decision procedure = definition + algorithmic model of the networkx separator routines proved correct on every DAG; exhaustive correspondence', design='§7 C11'),
  'C12': dict(
     text='Machine-checked proof (Coq) that the name codec model is a bijection between canonical names and (variable, lag) pairs for ALL '
          'good variable names and ALL integer lags (parse_fmt, fmt_zero, relag, fmt_inj, canonical_inv, exact rejection set), and that '
          'NodeOK / IdxOK are part of the invariant of every reachable time-series state with the lookups equal to a scan (inv_run, lookups_eq_scan); '
          'the codec model is a direct transcription of the regex semantics tied to utils.py by differential evaluation on all token strings up '
          'to a length plus hostile strings, and the index/tag coherence is both compared with the model and evaluated directly on the '
-         'implementation after every step of random histories and constructors.',
+         'implementation after every step of random histories and constructors. The source text of get_variable_name_and_lag / get_name_with_lag and the defaults of the time-series node parameters are regenerated from utils.py on every run and proved equal to what Names.v models (SFCodec.v, SFTSNode.v).',
     note=TB + 'Non-ASCII decimal digits inside a marker are not modelled (Python \\d is Unicode-aware).',
     technique='Coq proof of codec bijection + invariant; model/implementation correspondence by vm_compute', design='§7 C12'),
  'C13': dict(
@@ -72,7 +72,7 @@ CHECKS = {
          'ancestors, is symmetric in the pair; the promised sufficiency is REFUTED in Coq with a 5-node witness (recorded finding F12) and proved for '
          'the finite domain of all DAGs on <= 4 nodes. The model is compared with identify_confounders on every ordered pair of every DAG up to 4/5 '
          'nodes and sampled larger ones; sufficiency is evaluated by the Coq d-separation checker on the implementation\'s answers and failures are '
-         'matched against the committed known-findings list / rule.',
+         'matched against the committed known-findings list / rule. identify_confounders (with its nested in-place helper and _verify_identify_inputs) is additionally TRANSLATED from identify_utils.py to Gallina on every run (tools/translate_identify.py -> IdentifyGenConf.v) and proved equal to the hand-written model for every set iteration order (IdentifyGenConfProofs.v).',
     note=TB + 'Known finding F12 (known_findings.json) is reported as KNOWN-FINDING, any other failure as VIOLATION.',
     technique='Coq proofs + refutation witness; exhaustive small-scope correspondence', design='§7 C18'),
  'C19': dict(
@@ -80,14 +80,14 @@ CHECKS = {
          '>= 2, not reached by a confounder avoiding the source) and the exact instrument characterisation, emptiness when the destination is an '
          'ancestor; the instrument d-separation clause is proved for all DAGs on <= 4 nodes and evaluated by the Coq checker on every implementation '
          'answer. The model is compared with the code on every ordered pair of every DAG up to 4/5 nodes, and the answers are re-computed under several '
-         'PYTHONHASHSEED values with multi-character identifiers.',
+         'PYTHONHASHSEED values with multi-character identifiers. The d-separation clause of identify_instruments is proved on EVERY DAG (InstrumentsGen.v: inst_dsep_all; the confounder set is empty exactly without a common cause); identify_instruments / identify_mediators are TRANSLATED from the source on every run and proved equal to the model for every set iteration order, including the exact max_num_paths behaviour (IdentifyGenIMProofs.v).',
     note=TB + 'max_num_paths is not modelled (fewer than 26 paths on the explored graphs).',
     technique='Coq proofs of model = declarative spec; exhaustive small-scope correspondence; hash-seed sweep', design='§7 C19'),
  'C20': dict(
     text='Machine-checked proofs that the Markov boundary is parents + children + co-parents, d-separates its node from every other node and is '
          'minimal on every DAG (mb_shields, mb_minimal), that the Skeleton boundary is the neighbours, and that colliders / unshielded colliders are '
          'exactly the nodes with two arrowheads / pairwise non-adjacent arrow senders. Compared with the code on every node of every DAG up to 4/5 '
-         'nodes and on all mixed graphs (->, <>, --; both stored orientations) on <= 3 (quick) / 4 (thorough) nodes.',
+         'nodes and on all mixed graphs (->, <>, --; both stored orientations) on <= 3 (quick) / 4 (thorough) nodes. identify_markov_boundary / identify_colliders are TRANSLATED from the source on every run and proved equal to the model (IdentifyGenMBProofs.v); the sweeps also run over unusual identifiers (F17: the empty-string identifier, repaired).',
     note=TB, technique='Coq proofs; exhaustive small-scope correspondence', design='§7 C20'),
 }
 
@@ -165,14 +165,14 @@ CHECKS.update({
          'to_numpy / to_networkx / GML (never dropped or retyped), that malformed matrices are refused for ALL inputs, and the matrix and networkx round '
          'trips (validated and unvalidated, plain and own class; cyclic graphs refused under validation) by induction over the i<j construction loop. Tied to '
          'the code on graph states from histories, on every binary matrix up to 3x3 plus sampled larger and malformed ones through from_adjacency_matrix, '
-         'and by evaluating the round-trip / refusal clauses and the lagged-matrix round trip on the implementation.',
+         'and by evaluating the round-trip / refusal clauses and the lagged-matrix round trip on the implementation. to_numpy_by_lag / adjacency_matrices / from_adjacency_matrices are executable model functions (LagMatrix.v) with the round-trip theorem (= minimal graph; refused exactly when the minimal graph is cyclic), entry and key-order characterisations and refuted variants; compared with the implementation on template graphs and explicit matrix dictionaries (incl. malformed, several numpy dtypes).',
     note=TB + 'GML text is exercised (networkx), not modelled; to_numpy_by_lag / from_adjacency_matrices are checked by the implementation-side predicate and by C14 adjacency_matrices.',
     technique='Coq proofs of entry characterisation, refusals and round trips; correspondence on states and matrices', design='§7 C08'),
  'C09': dict(
     text='Machine-checked proofs that the skeleton views of the CURRENT model state have exactly the graph nodes, exactly one undirected edge per stored '
          'edge, a symmetric adjacency matrix with 1 exactly for adjacent pairs, orientation-blind existence / get_edge / neighbours, and that rebuilding '
          'from the matrix or networkx form gives the same skeleton. The Skeleton object is obtained BEFORE the history; after every mutation every public '
-         'member is compared with the graph, all views are compared with the Coq model, and the skeleton is rebuilt from dict / matrix / networkx / GML.',
+         'member is compared with the graph, all views are compared with the Coq model, and the skeleton is rebuilt from dict / matrix / networkx / GML. The rebuild from the skeleton\'s own dictionary is proved (SkeletonDict.v: sk_rebuild_dict, deep variant, JSON-tree model agrees).',
     note=TB + 'Rebuild from its own dictionary: compared on every run, general proof not closed (sk_rebuild_dict_statement).',
     technique='Coq proofs about skeleton views; liveness by observing a skeleton taken before the history', design='§7 C09'),
 })
